@@ -814,3 +814,19 @@ fn exec_par_with_checkpointing<T: 'static + Send + Sync + Clone>(
 
     result
 }
+
+/// Verification hooks: run the private engines on an explicit node chain.
+#[cfg(feature = "verif-hooks")]
+pub mod verif_exec {
+    use super::{Node, Result, exec_par, exec_seq};
+
+    pub fn exec_chain_seq<T: 'static + Send + Sync + Clone>(chain: Vec<Node>) -> Result<Vec<T>> {
+        exec_seq::<T>(chain)
+    }
+    pub fn exec_chain_par<T: 'static + Send + Sync + Clone>(
+        chain: &[Node],
+        partitions: usize,
+    ) -> Result<Vec<T>> {
+        exec_par::<T>(chain, partitions)
+    }
+}
